@@ -74,11 +74,24 @@ def s_wrapped(exe, rng, rep=None):
     return h, "rq 0 " + h.make_request(0, code=code, user=b"bob@example.org", ident=77, pwd=False, extra=[], with_ma=True).hex()
 
 
-def s_rewrites(exe, rng):
+def s_rewrites(exe, rng, rep=None):
     cfg = base_cfg(rng, True, True)
     cfg.clients[0]["rwuser"] = W.MOD_POOL[0]
+    extra31 = []
+    if rep is not None and rep % 2 == 0:
+        # every second repetition: the client's rewriteIn is a block with ALL kinds of stages - modify rules that lengthen and shorten
+        # a value, then supplement, then add -, so that an allocation failing in an early stage is followed by stages that succeed
+        blk = W.Rewrite("rwall")
+        blk.mod = [(31, b"^(.*)$", b"\\1\\1\\1"), (32, b"^(.)(.*)$", b"\\1")]
+        blk.sup = [(25, b"sup")]
+        blk.supsrc.append("    supplementAttribute 25:sup")
+        blk.add = [(18, b"x")]
+        blk.addsrc.append("    addAttribute 18:%78")
+        cfg.rewrites.append(blk)
+        cfg.clients[0]["rwin"] = "rwall"
+        extra31 = [(31, b"aa-bb"), (32, b"nas-identifier")]
     h = start(exe, rng, cfg)
-    return h, "rq 0 " + h.make_request(0, code=1, user=b"bob@local", extra=[R.rand_attr(rng) for _ in range(3)] + [(26, (9).to_bytes(4, "big") + b"\x01\x05abc")]).hex()
+    return h, "rq 0 " + h.make_request(0, code=1, user=b"bob@local", extra=[R.rand_attr(rng) for _ in range(3)] + extra31 + [(26, (9).to_bytes(4, "big") + b"\x01\x05abc")]).hex()
 
 
 def s_pwd(exe, rng):
